@@ -3,7 +3,8 @@ Decided by HFMachine!Verdict (clauses Err / OutputRestored / OutputCorrect) agai
 import random
 
 import families
-from common import seed
+import render
+from common import seed, workdir
 from checks._exec import run_exec, sample
 
 CLAUSES = ("Err:", "OutputCorrect", "OutputRestored")
@@ -11,6 +12,8 @@ CLAUSES = ("Err:", "OutputCorrect", "OutputRestored")
 
 def run(tier, rep):
     rng = random.Random(seed())
-    specs = families.goldens() + families.c01_core() + sample(families.gen_c01, rng, 120 if tier == "quick" else 1500)
+    with workdir("C01ss") as wd:
+        ss = render.exec_specs(wd, rep, 150 if tier == "quick" else 1500, seed(), want="plain")[: (40 if tier == "quick" else 600)]
+    specs = families.goldens() + families.c01_core() + sample(families.gen_c01, rng, 100 if tier == "quick" else 1500) + ss
     run_exec("C01", tier, rep, specs, CLAUSES, cap_q=60, cap_t=400, rng=rng,
-             rule="fixed core (19 golden specifications + 13 hand-written shapes) + seeded sample of plain Einsums (products, sums, take, scalars, rank-0) with loop/rank orders")
+             rule="fixed core (19 golden specifications + 13 hand-written shapes) + seeded sample of plain Einsums (products, sums, take, scalars, rank-0) with loop/rank orders + behaviours of SpecSpace.tla (TLC -simulate)")
